@@ -6,7 +6,13 @@ programs and seeded byte-level mutants of both; the child then reads `frontend/g
 structural invariants I1..I6 (lib/monitors/gir_wellformed.py).  `GIRParser.deal_with_file_unit` is wrapped so that an
 exception raised while one file is lowered is recorded per file and the batch continues; every distinct crash
 signature is then confirmed by an unwrapped, unmonitored run of the witness file in its own child (it must die with a
-traceback or a signal).  Batches that die outside the per-file entry are bisected down to the file."""
+traceback or a signal).  Batches that die outside the per-file entry are bisected down to the file.
+A SystemExit raised while one file is lowered (util.error_and_quit) escapes lian's per-file containment and ends the
+phase for every file of the project: recorded per file by the same wrapper and reported as
+`lang-phase-aborted:<lang>:<innermost lian function>` once an unwrapped two-file probe {witness, small program}
+ends by SystemExit as well.  Every project carries a few "empty-lowering" files (lib/c03_programs.EMPTY_LOWERING and
+truncated licence headers) next to ordinary ones, and the hand-written library has feature snippets
+(lib/c03_programs.FEATURES) for syntax the corpora lack."""
 import base64
 import json
 import os
@@ -931,7 +937,12 @@ def main():
         chk.require(f"files that emitted GIR [{l}]", 15 if not thorough else 300)
     chk.assumptions += [
         "--strict-parse-mode is excluded (sys.exit on ERROR nodes is documented there)",
-        "a SystemExit raised by util.error_and_quit with a diagnostic counts as a handled exit, not a crash",
+        "a SystemExit (util.error_and_quit) raised while ONE file is lowered is not an unhandled exception, but it "
+        "ends the lang phase for the whole project: it is reported as lang-phase-aborted:<lang>:<function> once an "
+        "unwrapped run of {that file + a small program that lowers fine} also ends by SystemExit; a SystemExit on "
+        "project-level conditions (no input file at all) is not produced by this workload",
+        "every project (except the single-file ones) contains files that parse but lower to zero statements "
+        "(comment/licence only, prototype-only header, template without code, source cut inside its header comment)",
         "inputs come from /repo's corpora, lib/c03_programs.py and lib/mutate.py; languages without a grammar "
         "library (cpp, csharp) are skipped",
         "the per-file wrapper changes nothing but the fate of an exception; every crash signature is re-observed "
